@@ -183,14 +183,16 @@ def traverse_graph_with_sampled_series(
 
     # Cast the full series
     from_type = path[0]
-    for i, to_type in enumerate(path[1:]):
+    validated_path = [from_type]
+    for to_type in path[1:]:
         relation = graph[from_type][to_type]["relationship"]
         if not relation.is_relation(series, state):
             break
         series = relation.transform(series, state)
+        validated_path.append(to_type)
         from_type = to_type
 
-    return series, path[0 : (i + 2)], state
+    return series, validated_path, state
 
 
 @singledispatch
